@@ -367,7 +367,7 @@ func (g *gen) mutTransportWild() piece {
 }
 
 func (g *gen) mutWire() piece {
-	switch g.pick(12) {
+	switch g.pick(13) {
 	case 0:
 		return respPiece("?", Mut{Op: "clen", V: pickOf(g, "+5", "+100000", "-3", "abc", "-1", "99999999999999999999")})
 	case 1:
@@ -394,6 +394,8 @@ func (g *gen) mutWire() piece {
 		return piece{acts: []Action{{Kind: "frame", Ch: g.pick(4), Payload: make([]byte, 65535)}, {Kind: "resp"}}, abs: "?"}
 	case 10:
 		return respPiece("?", Mut{Op: "set", K: "CSeq", V: strings.Repeat("9", 400)})
+	case 11:
+		return piece{acts: []Action{{Kind: "drip", Method: pickOf(g, "stale", "options", "frame"), Ch: g.pick(3), Every: g.rt / pickOf(g, 2, 3, 5), For: pickOf(g, 4, 8) * g.rt}}, abs: "?"}
 	}
 	return respPiece("?", Mut{Op: "body", V: strings.Repeat("x", 200000)})
 }
